@@ -52,6 +52,7 @@ structure Pre where
   pendOut : Nat := 0               -- memOut (event 300)
   memLimit : Nat := 0
   bad : Option String := none
+  laterStream : Bool := false      -- event 143 seen: the Stream being parsed is not the first one
   openTail : Bool := false         -- a further Stream was announced (event 143) but none of its items has been seen yet
 
 def Pre.push (p : Pre) (b : Block) : Pre := { p with blocks := p.blocks.push b, fresh := false, openTail := false }
@@ -63,7 +64,9 @@ def zeros (n : Nat) : List UInt8 := List.replicate n 0
 def prescanStep (p : Pre) (e : Ev) : Pre :=
   match e.id with
   | 1 => { p with lastRow := 0 }
-  | 102 => if e.a != 0 then p.push { kind := .badHeader, ret := e.a } else p
+  | 102 =>
+    -- (LZMA_FORMAT_ERROR from the Stream Header of a later Stream is returned as LZMA_DATA_ERROR)
+    if e.a != 0 then p.push { kind := .badHeader, ret := if e.a == 7 && p.laterStream then 9 else e.a } else p
   | 103 =>
     if e.a == 0 then p
     else if e.a == 102 then
@@ -102,7 +105,7 @@ def prescanStep (p : Pre) (e : Ev) : Pre :=
     | none => p
   | 134 => { p with lastRow := e.a }
   | 140 => if e.a == 0 then { p with drained := true } else p
-  | 143 => { p with syncOpen := none, openTail := true }      -- Index + Footer + Padding were fine, the next Stream starts
+  | 143 => { p with syncOpen := none, openTail := true, laterStream := true }      -- Index + Footer + Padding were fine, the next Stream starts
   | 2 =>
     match p.syncOpen with
     | some i =>
